@@ -279,6 +279,40 @@ class Cov(Harness):
         return out
 
 
+class CovNaN(Harness):
+    """a non-finite jackknife sample (outside the real-number model): concrete sentinel at an engine-chosen position"""
+
+    functions = (cov_from_samples, SampledData.covariance.fget, SampledData.error.fget)
+    modules = ()
+    xval = False
+
+    def __init__(self):
+        self.name = "covariance.nonfinite_sample"
+        self.bounds = "4 samples x 3 bins of concrete numbers with nan / inf at every (sample, bin) position chosen by the engine"
+
+    def make_inputs(self, eng):
+        return {"k": eng.choose(4, "sample"), "b": eng.choose(3, "bin"), "v": eng.choose(2, "nan_or_inf")}
+
+    def concrete_inputs(self, m, inp):
+        return dict(inp)
+
+    def body(self, inp):
+        N, B = 4, 3
+        x = np.array([[1.0, 2.0, 4.0], [2.5, 1.0, 3.0], [0.5, 4.0, 1.5], [3.0, 2.5, 2.0]])
+        x[inp["k"], inp["b"]] = (np.nan, np.inf)[inp["v"]]
+        sd = SampledData(conc_binning(B), x[0].copy(), x.copy())
+        with np.errstate(all="ignore"):
+            cov = sd.covariance
+            err = sd.error
+        good = [a for a in range(B) if a != inp["b"]]
+        mean = x.mean(axis=0)
+        exp = np.array([[((x[:, a] - mean[a]) * (x[:, c] - mean[c])).sum() * (N - 1) / N for c in good] for a in good])
+        got = cov[np.ix_(good, good)]
+        return [Check("unaffected_bins_use_all_N_samples", got, exp),
+                Check("affected_bin_is_not_finite", cond=bool(not np.isfinite(cov[inp["b"], inp["b"]]) and not np.isfinite(err[inp["b"]]))),
+                Check("unaffected_errors", err[good], np.sqrt(np.diag(exp)))]
+
+
 class NzLoo(Harness):
     functions = (RedshiftData.from_corrfuncs, RedshiftData.from_corrdata, CorrFunc.sample)
     modules = CORR_MODULES
@@ -376,6 +410,7 @@ def harnesses(tier):
         hs.append(HistLoo(4, 1, 2, True))
         hs.append(HistLoo(3, 2, 1, True, closed="left"))
     hs.append(Cov(3, 2))
+    hs.append(CovNaN())
     hs.append(Cov(3, 2, wrong="factor"))
     if tier == "thorough":
         hs.append(Cov(4, 2))
